@@ -20,6 +20,7 @@ import NomtModel.Driver.SeekerMode
 import NomtModel.Driver.PrepSyncMode
 import NomtModel.Driver.HasherMode
 import NomtModel.Driver.CachesMode
+import NomtModel.Driver.OpenPathMode
 /-!
 `nomt_model`: the executable Lean model behind a line protocol.
 First argument selects the sub-protocol; stdin → stdout, one output line per input line.
@@ -59,4 +60,5 @@ def main (args : List String) : IO UInt32 := do
   | ["prepsync"] => loop stdin stdout prepsyncStep (); return 0
   | ["hasher"] => loop stdin stdout hasherStep {}; return 0
   | ["caches"] => loop stdin stdout cachesStep {}; return 0
+  | ["openpath"] => loop stdin stdout openpathStep (); return 0
   | _ => IO.eprintln "usage: nomt_model <core|...>"; return 2
